@@ -89,7 +89,7 @@ def shrink(tag, failing, oracle, rounds=40):
     return cur
 
 
-def run_stream(pid, name, cases, model_ok, level, oracle=None, desc="", nontrivial=None, triggers=None, do_shrink=True, post=None):
+def run_stream(pid, name, cases, model_ok, level, oracle=None, desc="", nontrivial=None, triggers=None, do_shrink=True, post=None, t4_sample=0):
     impl, mod = t2.run_both("%s.%s" % (pid, name), cases, model=model_ok)
     res = {"name": name, "n": len(cases), "mismatch": [], "oracle": [], "nontrivial": 0, "desc": desc, "exhaustive": False}
     seen = set()
@@ -119,6 +119,12 @@ def run_stream(pid, name, cases, model_ok, level, oracle=None, desc="", nontrivi
                 res["mismatch"].append({"input": c.id, "impl": "", "model": "missing", "case": c.to_text()})
             else:
                 d = t2.compare(c, a, b, level)
+                if d and (c.crash >= 0 or c.faults) and a.get("T") != b.get("T"):
+                    # crash points and fault occurrences count primitive calls; an optional
+                    # Chtimes (t2.norm_trace) or Rollback's map order makes the k-th call of
+                    # *this* run another call than the model's: judged by the oracle only
+                    res["unaligned_runs"] = res.get("unaligned_runs", 0) + 1
+                    d = None
                 if d:
                     if len(res["mismatch"]) < 40:
                         res["mismatch"].append({"input": c.id, "diff": d[:6], "case": c.to_text(), "impl": "", "model": ""})
@@ -143,6 +149,13 @@ def run_stream(pid, name, cases, model_ok, level, oracle=None, desc="", nontrivi
         if nt:
             key = "\n".join(c.to_text().split("\n")[1:])
             seen.add(hash(key))
+    if t4_sample and mod is not None:
+        import t4
+        sample = [c for c in cases if not c.meta.get("twin") and not c.faults and c.crash < 0 and not c.meta.get("pause")][:t4_sample]
+        n4, bad4 = t4.run(pid, sample, mod)
+        res["in_coq_replayed"] = n4
+        for cid, msg in bad4:
+            res["mismatch"].append({"input": cid, "diff": ["T4 (vm_compute inside Coq vs extracted OCaml): " + msg], "case": "", "impl": "", "model": ""})
     if post is not None:
         for item in post(cases, impl):
             cid, msg = item[0], item[1]
